@@ -590,3 +590,10 @@ From BB Require Gen.Effects Proofs.Effects Proofs.EffectsOk.
 Theorem C05_assemble_is_a_function_of_its_inputs : Proofs.Effects.summary_ok Gen.Effects.summary = true.
 Proof. exact Proofs.EffectsOk.summary_ok_holds. Qed.
 Print Assumptions C05_assemble_is_a_function_of_its_inputs.
+
+(* ---- resolve_register_aliases as the source has it (Gen/Guards.v; Proofs/Guards.v): the item is rebuilt from ALL its fields in order,
+   only a register field whose value is a constant name changes -- the immediate, is_auipc_jump, aq / rl and the fence sets survive *)
+From BB Require Gen.Guards Proofs.Guards.
+Theorem C05_register_aliases_from_source : Proofs.Guards.register_aliases_from_source_stmt.
+Proof. exact Proofs.Guards.register_aliases_from_source. Qed.
+Print Assumptions C05_register_aliases_from_source.
